@@ -178,6 +178,10 @@ def stripPassword (u : Url) : List Char :=
     else u.scheme ++ "://".toList ++ us ++ '@' :: u.host.map Char.toLower ++ u.rest
   | _ => u.render
 
+/-- the URL with user name only, lower-cased host and no port -/
+def Url.userOnly (u : Url) (us : List Char) : Url :=
+  { scheme := u.scheme, auth := some (us, none), host := u.host.map Char.toLower, port := none, rest := u.rest }
+
 /-- sub-list test -/
 def isInfix (p : List Char) : List Char → Bool
   | [] => p.isEmpty
@@ -352,5 +356,37 @@ def runIds {κ β : Type} (c : List (Line κ β)) : List Nat :=
 
 def benchIds {κ β : Type} (c : List (Line κ β)) : List Nat :=
   c.filterMap (fun l => match l with | .bench id _ => some id | _ => none)
+
+/-! ## Vocabulary of the property statements -/
+
+section Spec
+variable {κ β : Type} [DecidableEq κ] [DecidableEq β] (benchOf : κ → β)
+
+/-- a sequence of `persist_data_point` calls on one file within one session -/
+def writeOps (ops : List (κ × DP)) (fp : FP κ β) : FP κ β :=
+  ops.foldl (fun fp op => persist benchOf op.1 op.2 fp) fp
+
+/-- measurement lines as the property reads them: run (its columns), invocation, iteration, measurement -/
+def measProj : Line κ β → Option (κ × Nat × Nat × Meas)
+  | .meas inv it m k _ => some (k, inv, it, m)
+  | _ => none
+
+def dpProj (k : κ) (dp : DP) : List (κ × Nat × Nat × Meas) := dp.ms.map (fun m => (k, dp.inv, dp.it, m))
+
+/-- the complete data points of `dp` as the loader counts them: one per loadable `total` line -/
+def totalsOf (k : κ) (dp : DP) : List (Loaded κ) :=
+  (dp.ms.filter (fun m => m.value.loads && decide (m.crit = "total"))).map
+    (fun _ => { k := k, inv := dp.inv, it := dp.it })
+
+/-- contents reachable from the empty (or absent) file by any number of
+sessions, each a load (keys surviving the JSON round trip unchanged, which is
+C07's `fromDict_asDict`) followed by any sequence of `persist_data_point` calls -/
+inductive Reach : List (Line κ β) → Prop
+  | empty : Reach []
+  | session (c : List (Line κ β)) (T : Tables κ β) (ls : List (Loaded κ)) (ops : List (κ × DP)) :
+      Reach c → load (fun x => x) (fun x => x) c = .ok (T, ls) →
+      Reach (writeOps benchOf ops (FP.ofTables c T)).content
+
+end Spec
 
 end RB.DataFile
